@@ -59,18 +59,27 @@ Definition show_submit (o : outcome req_err (list N)) (wire : list (list N)) : s
   (match o with Ok _ => "SENT" | Err e => show_err e | Panic => "PANIC" end) ++ " " ++
   (match wire with [] => "-" | _ => show_list show_bytes "+" wire end).
 
+(* model result | Spec result; the Spec's is abbreviated to "=" when it is the same string (printing
+   long strings is what costs time in coqc) *)
+Definition both (model spec : string) : string :=
+  model ++ "|" ++ (if String.eqb model spec then "=" else spec).
+
 Definition run_enc (x : enc_case) : string :=
   let '(tcp, kind, tx, uid, s, c, v) := x in
   let call := mk_call kind s c v in
   let f := framing_of tcp in
-  show_submit (client_submit f tx uid call) (submit_wire f tx uid call)
-  ++ "|" ++
-  (if within_limits_b call
-   then "SENT " ++ show_bytes (if tcp then ref_encode_tcp tx uid call else ref_encode_rtu uid call)
-   else "REJECT").
+  both (show_submit (client_submit f tx uid call) (submit_wire f tx uid call))
+       (if within_limits_b call
+        then "SENT " ++ show_bytes (if tcp then ref_encode_tcp tx uid call else ref_encode_rtu uid call)
+        else "REJECT").
 
-(* ---- C04: (kind, start, count/value, reply pdu); the request is built as the API builds it ---- *)
-Definition resp_case := (N * N * N * list N)%type.
+(* ---- C04: (kind, start, count/value, reply pdu); the request is built as the API builds it.
+   The PDU is passed as (length, big-endian number) - one hexadecimal literal parses much faster
+   than a list of 250 numbers - and expanded here. ---- *)
+Fixpoint bytes_of_aux (len : nat) (x : N) (acc : list N) : list N :=
+  match len with O => acc | S l => bytes_of_aux l (N.shiftr x 8) (N.land x 255 :: acc) end.
+Definition bytes_of (len : nat) (x : N) : list N := bytes_of_aux len x [].
+Definition resp_case := (N * N * N * (nat * N))%type.
 
 Definition show_hex4 (v : N) : string := show_byte (v / 256) ++ show_byte (v mod 256).
 Fixpoint show_bits (l : list (N * bool)) : string :=
@@ -96,15 +105,17 @@ Definition show_response (r : response) : string :=
   end.
 
 Definition run_resp (x : resp_case) : string :=
-  let '(kind, s, c, pdu) := x in
+  let '(kind, s, c, (plen, pnum)) := x in
+  let pdu := bytes_of plen pnum in
   let call := mk_call kind s c (Seed 0 c) in
   match build call with
   | Ok r =>
+      both
       (match handle_response r pdu with
        | Ok v => show_response v
        | Err e => "ERR " ++ show_err e
        | Panic => "PANIC"
-       end) ++ "|" ++
+       end)
       (match ref_reply r pdu with
        | Some v => show_response v
        | None => match ref_exception r pdu with
